@@ -235,6 +235,10 @@ class FArr:
     """functional 1-d array: heap[sid] is a single z3 Array(BV64 -> BV dtype); extent is a z3 BV64 term"""
     def __init__(self, sid, dtype, extent): self.sid=sid; self.dtype=unlit(dtype); self.extent=extent; self.ndim=1
 
+class FArrR:
+    """functional 1-d float64 array for the real-idealised mode: heap[sid] is a z3 Array(Int -> Real); extent a python int"""
+    def __init__(self, sid, extent): self.sid=sid; self.dtype=types.float64; self.extent=extent; self.ndim=1; self.shape=(extent,)
+
 class SBytes:
     def __init__(self, cells): self.cells=list(cells)
     def __len__(self): return len(self.cells)
@@ -800,6 +804,11 @@ class Executor:
             if not (0<=i<len(base)):
                 state.oblig.append(("bytes-oob", z3.And(*state.pc))) ; raise PathAbort("bytes oob")
             return Val(types.uint8, base.cells[i])
+        if isinstance(base, FArrR):
+            k=zi_of(index.t) if isinstance(index, Val) else None
+            if k is None: raise Unsupported("FArrR index is not a math-mode integer")
+            state.oblig.append(("array-oob", z3.And(*state.pc, z3.Or(k<0, k>=base.extent))))
+            return Val(types.float64, z3.Select(state.heap[base.sid], k))
         if isinstance(base, FArr):
             i=cast(index, types.uint64, self)
             state.oblig.append(("array-oob", z3.And(*state.pc, z3.UGE(i.t, base.extent))))
@@ -882,6 +891,17 @@ class Executor:
 
     def setitem(self, state, tgt, index, val, sig):
         if isinstance(index,int): index=mk_int(types.int64,index)
+        if isinstance(tgt, FArrR):
+            if isinstance(index, PySlice) or isinstance(index, slice):
+                start=getattr(index,'start',None); stop=getattr(index,'stop',None)
+                if (start in (None,0)) and (stop is None or stop==tgt.extent) and isinstance(val, FArrR):
+                    if val.extent!=tgt.extent: raise PathAbort(('raise', ValueError, 'shape mismatch'))
+                    state.heap[tgt.sid]=state.heap[val.sid]; return
+                raise Unsupported("FArrR slice assignment other than a[:] = b")
+            k=zi_of(index.t)
+            if k is None: raise Unsupported("FArrR index is not a math-mode integer")
+            state.oblig.append(("array-oob", z3.And(*state.pc, z3.Or(k<0, k>=tgt.extent))))
+            state.heap[tgt.sid]=z3.Store(state.heap[tgt.sid], k, cast(val, types.float64, self).t); return
         if isinstance(tgt, FArr):
             i=cast(index, types.uint64, self)
             state.oblig.append(("array-oob", z3.And(*state.pc, z3.UGE(i.t, tgt.extent))))
@@ -920,6 +940,21 @@ class Executor:
             else: raise Unsupported("float min/max")
             if f is min: return Val(rt, simp(z3.If(lt,x.t,y.t)))
             return Val(rt, simp(z3.If(lt,y.t,x.t)))
+        if f is np.random.rand:
+            n=self.concrete_int(a[0],"rand size")
+            self._nrand=getattr(self,'_nrand',0)+1
+            st_=Store()
+            if getattr(self,'rand_functional',False):
+                state.heap[st_.id]=z3.Array(f"fresh{self._nrand}", z3.IntSort(), z3.RealSort())
+                self.fresh_arrays=getattr(self,'fresh_arrays',[])+[st_.id]
+                return FArrR(st_.id, n)
+            if self.fpmode=='real':
+                cells=tuple(z3.Real(f"fresh{self._nrand}_{i}") for i in range(n))
+            else:
+                cells=tuple(z3.FP(f"fresh{self._nrand}_{i}", FPS) for i in range(n))
+            state.heap[st_.id]=cells
+            self.fresh_arrays=getattr(self,'fresh_arrays',[])+[st_.id]
+            return Arr(st_.id, types.float64, (n,))
         if f is np.count_nonzero:
             x=a[0]; h=state.heap[x.sid]; rt=unlit(sig.return_type)
             if self.fpmode=='real':
